@@ -15,7 +15,7 @@ META = {
                  "for running values, a symbolic rest 0..120 and a time signature with symbolic numerator 1..20 over {2,4,8,16}",
         "thorough": "as quick plus velocity_bins 8, the default pitch range (21,108) for 4 flag combinations, 3 tracks",
     },
-    "outside_claim": ["custom step_sizes and time_signature_range", "ppqn other than 24", "more than 2 notes in the emission harness"],
+    "outside_claim": ["custom step_sizes (beyond one list with a step above the bar length), time_signature_range", "ppqn other than 24 and 4", "more than 2 notes in the emission harness"],
     "stubs": ["np.digitize ite-sum (validated exhaustively against numpy for the bins lists used)", "int()/float() shadowed",
               "logging disabled"],
 }
@@ -34,9 +34,14 @@ def cfg_name(cfg):
     return f"f{''.join(str(int(x)) for x in fl)}-b{bins}-t{ntr}-p{prange[0]}_{prange[1]}-{'nvdef' if not nv else 'nv' + '_'.join(map(str, nv))}"
 
 
-def q_vocab(cfg):
+def q_vocab(cfg, steps=None, ppqn=None):
     def fn(ctx):
         tok = mk(cfg)
+        if steps or ppqn:
+            fl, bins, ntr, prange, nv = cfg
+            tok = Tokeniser(ppqn=ppqn, num_tracks=ntr, pitch_range=prange, velocity_bins=bins, note_values=list(nv) if nv else None,
+                            step_sizes=list(steps) if steps else None,
+                            flag_running_values=fl[0], flag_fuse_track=fl[1], flag_fuse_value=fl[2], flag_fuse_velocity=fl[3])
         size = tok.dictionary_size
         ctx.must("size_matches_entries", size == len(tok.dictionary) == len(tok.inverse_dictionary))
         ctx.must("ids_are_0_to_size_minus_1", sorted(tok.dictionary.values()) == list(range(size)))
@@ -54,7 +59,7 @@ def q_vocab(cfg):
         ok4, info = call(tok.get_info, t)
         ctx.must("get_info_accepts_member", ok4)
         return [t]
-    return Query(f"vocab/{cfg_name(cfg)}", fn,
+    return Query(f"vocab/{cfg_name(cfg)}{'-steps' + '_'.join(map(str, steps)) if steps else ''}{'-ppqn' + str(ppqn) if ppqn else ''}", fn,
                  ["size_matches_entries", "ids_are_0_to_size_minus_1", "no_malformed_keys", "decode_defined",
                   "encode_decode_identity", "detokenise_accepts_member", "get_info_accepts_member"],
                  desc="symbolic id over the whole vocabulary")
@@ -99,6 +104,23 @@ def q_emit_note(cfg):
         return _emit_check(ctx, tok, seqs, "note")
     return Query(f"emit_note/{cfg_name(cfg)}", fn, ["emitted_tokens_in_vocabulary", "encode_succeeds_on_emitted", "decode_inverts_encode"],
                  desc="one symbolic note through tokenise")
+
+
+def q_emit_note_without_velocity(cfg):
+    """a note-on that carries no velocity: whether tokenise accepts it is not claimed, but what it emits is vocabulary"""
+    def fn(ctx):
+        tok = mk(cfg)
+        p = ctx.int("pitch", cfg[3][0], cfg[3][1])
+        dur = tok.note_values[ctx.int("value_index", 0, len(tok.note_values) - 1)]
+        m = on(0, p, 1, time=0)
+        m.velocity = None
+        ok, tokens = call(tok.tokenise, [abs_sequence([m, off(0, p, time=dur)])])
+        ctx.note("accepted", ok)
+        if ok:
+            ctx.must("emitted_tokens_in_vocabulary", not [t for t in tokens if t not in tok.dictionary], disc="no_velocity")
+            ctx.must("encode_succeeds_on_emitted", call(tok.encode, tokens)[0], disc="no_velocity")
+        return [ok, tokens if ok else type(tokens).__name__]
+    return Query(f"emit_note_without_velocity/{cfg_name(cfg)}", fn, [], desc="note-on without a velocity")
 
 
 def q_emit_running(cfg):
@@ -216,6 +238,12 @@ def queries(tier, seed):
     for den in (2, 4, 8, 16):
         qs.append(q_emit_ts(base, den))
     qs.append(q_emit_ts(two, 4))
+    # rest tokens longer than the bar in force: a step size above 4 * ppqn, or a coarse tokeniser resolution
+    qs.append(q_vocab((FLAGS[0], 1, 1, (60, 60), (12,)), steps=(6, 24, 120)))
+    qs.append(q_vocab((FLAGS[15], 2, 1, (60, 60), (12,)), ppqn=4))
+    # a bin count whose top bin value lies below 127
+    qs.append(q_emit_note_without_velocity((FLAGS[0], 15, 1, (60, 61), (12,))))
+    qs.append(q_emit_note_without_velocity((FLAGS[15], 15, 1, (60, 61), (12,))))
     qs.append(q_two_instances(FLAGS[0]))
     qs.append(q_two_instances(FLAGS[15]))
     return qs
